@@ -53,6 +53,16 @@ Proof.
   destruct (q x) eqn:Q, (p x) eqn:P; cbn [filter]; rewrite ?Q, ?P, IH; reflexivity.
 Qed.
 
+(** the columns an Expand appends are among what the code calls introduced, plus the hidden
+    path-length column *)
+Lemma mem_xnames : forall v t ev h,
+  mem v (xintro t ev h) = false -> mem v (xhidden h) = false -> mem v (xnames t ev h) = false.
+Proof.
+  intros v t ev h. unfold xintro, xhidden, xnames. cbn [mem]. rewrite !mem_app. cbn [mem].
+  intros H1 H2. apply orb_false_iff in H1 as [Ht H1]. apply orb_false_iff in H1 as [He _].
+  rewrite He, Ht. cbn [orb]. destruct (h_path h); [exact H2|reflexivity].
+Qed.
+
 (** ** the pass keeps the columns *)
 Lemma schema_try_push : forall e op, schema (try_push e op) = schema op.
 Proof.
@@ -119,20 +129,20 @@ Lemma try_push_sound : forall G e op,
   sem G (try_push e op) = filter (passes G e) (sem G op).
 Proof.
   intros G e op; induction op as
-    [|x l|x l inp IH|f t ev d ty inp IH|e0 inp IH|items inp IH|items dd inp IH|k cs pl IHl pr IHr
+    [|x l|x l inp IH|f t ev d ty h inp IH|e0 inp IH|items inp IH|items dd inp IH|k cs pl IHl pr IHr
      |pl IHl pr IHr|gs ags inp IH|ks inp IH|n inp IH|n inp IH|inp IH|a IHa b IHb];
     cbn [try_push try_push_ok uniform]; intros U OK; try reflexivity.
   - (* Expand *)
-    destruct (uses_any (expr_vars e) (t :: match ev with Some e1 => [e1] | None => [] end)) eqn:UA;
-      [reflexivity|].
+    destruct (uses_any (expr_vars e) (xintro t ev h)) eqn:UA; [reflexivity|].
+    apply andb_true_iff in OK as [HD OK].
     cbn [sem]. rewrite (IH U OK). symmetry. apply filter_flat_map_comm.
     intros r Hr r' Hr'. unfold expand_row in Hr'.
     destruct (lookup f r) as [[| | | |s|]|]; try destruct Hr'.
     apply in_map_iff in Hr' as (et & <- & _). apply passes_ext. intros v Hv.
-    pose proof (uses_any_false _ _ UA v Hv) as Hm.
     rewrite lookup_app. destruct (lookup v r) as [x|]; [reflexivity|].
-    apply lookup_not_key. rewrite keys_app. cbn [mem] in Hm. apply orb_false_iff in Hm as [Ht Hev].
-    rewrite mem_app. destruct ev as [e1|]; cbn [keys map fst mem app] in *; rewrite ?Ht, ?Hev; reflexivity.
+    apply lookup_not_key. rewrite keys_xcols. apply mem_xnames.
+    + exact (uses_any_false _ _ UA v Hv).
+    + exact (disjointb_true _ _ HD v Hv).
   - (* Project *)
     destruct (disjointb (expr_vars e) (aliases items)); [|reflexivity].
     apply andb_true_iff in OK as [T OK]. cbn [sem]. rewrite (IH U OK). symmetry.
@@ -181,7 +191,7 @@ Qed.
 Theorem pfd_sound : forall G p, uniform p = true -> pfd_ok p = true -> sem G (pfd p) = sem G p.
 Proof.
   intros G p; induction p as
-    [|x l|x l inp IH|f t ev d ty inp IH|e0 inp IH|items inp IH|items dd inp IH|k cs pl IHl pr IHr
+    [|x l|x l inp IH|f t ev d ty h inp IH|e0 inp IH|items inp IH|items dd inp IH|k cs pl IHl pr IHr
      |pl IHl pr IHr|gs ags inp IH|ks inp IH|n inp IH|n inp IH|inp IH|a IHa b IHb];
     cbn [pfd pfd_ok uniform]; intros U OK; try reflexivity;
     try (cbn [sem]; rewrite (IH U OK); reflexivity).
@@ -232,20 +242,20 @@ Lemma try_push_fix_sound : forall G e op,
   sem G (try_push_fix e op) = filter (passes G e) (sem G op).
 Proof.
   intros G e op; induction op as
-    [|x l|x l inp IH|f t ev d ty inp IH|e0 inp IH|items inp IH|items dd inp IH|k cs pl IHl pr IHr
+    [|x l|x l inp IH|f t ev d ty h inp IH|e0 inp IH|items inp IH|items dd inp IH|k cs pl IHl pr IHr
      |pl IHl pr IHr|gs ags inp IH|ks inp IH|n inp IH|n inp IH|inp IH|a IHa b IHb];
     cbn [try_push_fix try_push_fix_ok uniform]; intros U OK; try reflexivity.
   - (* Expand *)
-    destruct (uses_any (expr_vars e) (t :: match ev with Some e1 => [e1] | None => [] end)) eqn:UA;
-      [reflexivity|].
+    destruct (uses_any (expr_vars e) (xintro t ev h)) eqn:UA; [reflexivity|].
+    apply andb_true_iff in OK as [HD OK].
     cbn [sem]. rewrite (IH U OK). symmetry. apply filter_flat_map_comm.
     intros r Hr r' Hr'. unfold expand_row in Hr'.
     destruct (lookup f r) as [[| | | |s|]|]; try destruct Hr'.
     apply in_map_iff in Hr' as (et & <- & _). apply passes_ext. intros v Hv.
-    pose proof (uses_any_false _ _ UA v Hv) as Hm.
     rewrite lookup_app. destruct (lookup v r) as [x|]; [reflexivity|].
-    apply lookup_not_key. rewrite keys_app. cbn [mem] in Hm. apply orb_false_iff in Hm as [Ht Hev].
-    rewrite mem_app. destruct ev as [e1|]; cbn [keys map fst mem app] in *; rewrite ?Ht, ?Hev; reflexivity.
+    apply lookup_not_key. rewrite keys_xcols. apply mem_xnames.
+    + exact (uses_any_false _ _ UA v Hv).
+    + exact (disjointb_true _ _ HD v Hv).
   - (* Project *)
     destruct (all_passed (expr_vars e) items); [|reflexivity].
     apply andb_true_iff in OK as [T OK]. cbn [sem]. rewrite (IH U OK). symmetry.
@@ -296,7 +306,7 @@ Qed.
 Theorem pfd_fix_sound : forall G p, uniform p = true -> pfd_fix_ok p = true -> sem G (pfd_fix p) = sem G p.
 Proof.
   intros G p; induction p as
-    [|x l|x l inp IH|f t ev d ty inp IH|e0 inp IH|items inp IH|items dd inp IH|k cs pl IHl pr IHr
+    [|x l|x l inp IH|f t ev d ty h inp IH|e0 inp IH|items inp IH|items dd inp IH|k cs pl IHl pr IHr
      |pl IHl pr IHr|gs ags inp IH|ks inp IH|n inp IH|n inp IH|inp IH|a IHa b IHb];
     cbn [pfd_fix pfd_fix_ok uniform]; intros U OK; try reflexivity;
     try (cbn [sem]; rewrite (IH U OK); reflexivity).
@@ -304,6 +314,315 @@ Proof.
     rewrite try_push_fix_sound by (auto using uniform_pfd_fix). cbn [sem]. rewrite (IH U OK1). reflexivity.
   - apply andb_true_iff in U as [Ul Ur]. apply andb_true_iff in OK as [OKl OKr].
     cbn [sem]. rewrite !schema_pfd_fix, (IHl Ul OKl), (IHr Ur OKr). reflexivity.
+Qed.
+
+(** *** the patched push-down keeps every well-scoped plan whose predicates do not mention the
+    planner's invented column names *)
+Lemma subsetb_mem : forall a b, subsetb a b = true -> forall x, In x a -> mem x b = true.
+Proof. intros a b H x Hx. unfold subsetb in H. rewrite forallb_forall in H. auto. Qed.
+
+Lemma subsetb_intro : forall a b, (forall x, In x a -> mem x b = true) -> subsetb a b = true.
+Proof. intros a b H. unfold subsetb. apply forallb_forall. exact H. Qed.
+
+Lemma disjointb_intro : forall a b, (forall x, In x a -> mem x b = false) -> disjointb a b = true.
+Proof.
+  intros a b H. unfold disjointb, uses_any. apply negb_true_iff.
+  destruct (existsb (fun v => mem v b) a) eqn:E; [|reflexivity].
+  apply existsb_exists in E as (x & Hx & M). rewrite (H x Hx) in M. discriminate.
+Qed.
+
+Lemma mem_map_In : forall {A} (f : A -> var) l x, mem x (map f l) = true <-> exists a, In a l /\ f a = x.
+Proof.
+  intros A f l x. rewrite mem_In, in_map_iff. split; intros (a & H1 & H2); exists a; tauto.
+Qed.
+
+Lemma passes_through_var : forall v items, passes_through v items = true ->
+  exists it, In it items /\ fst it = EVar v.
+Proof.
+  intros v items; induction items as [|it items IH]; cbn [passes_through]; [discriminate|].
+  destruct (String.eqb (item_name it) v).
+  - destruct it as [[ | x | | | | ] al]; cbn [fst]; try discriminate.
+    intros E. apply String.eqb_eq in E. subst. exists (EVar v, al). split; [left; reflexivity|reflexivity].
+  - intros H. destruct (IH H) as (it' & H1 & H2). exists it'. split; [right; exact H1|exact H2].
+Qed.
+
+Lemma passed_passes : forall v items found,
+  (forall it, In it items -> computed_item it = true -> item_name it <> v) ->
+  passed_through v items found = true ->
+  passes_through v items = true \/ (found = true /\ forall it, In it items -> item_name it <> v).
+Proof.
+  intros v items; induction items as [|it items IH]; intros found NC; cbn [passed_through passes_through].
+  - intros ->. right. split; [reflexivity|]. intros it [].
+  - assert (forall it', In it' items -> computed_item it' = true -> item_name it' <> v) as NC'
+      by (intros; apply NC; [right|]; assumption).
+    destruct it as [e al].
+    cbn [fst snd].
+    destruct ((match e with EVar x => String.eqb x v | _ => false end)
+              && (match al with None => true | Some a => String.eqb a v end)) eqn:ID.
+    + (* the identity item *)
+      intros _. left. apply andb_true_iff in ID as [I1 I2].
+      destruct e as [ | x | | | | ]; try discriminate I1. apply String.eqb_eq in I1. subst x.
+      assert (item_name (EVar v, al) = v) as Nm.
+      { unfold item_name. cbn [snd fst]. destruct al as [a|]; [apply String.eqb_eq in I2; exact I2|reflexivity]. }
+      rewrite Nm, String.eqb_refl. cbn [fst]. rewrite ?String.eqb_refl. reflexivity.
+    + destruct (match al with Some a => String.eqb a v | None => false end) eqn:AL; [discriminate|].
+      intros H.
+      assert (item_name (e, al) <> v) as Nn.
+      { destruct al as [a|].
+        - unfold item_name. cbn [snd]. intros ->. rewrite String.eqb_refl in AL. discriminate.
+        - destruct e as [ | x | | | | ]; try (apply NC; [left; reflexivity|reflexivity]).
+          unfold item_name. cbn [snd fst expr_name]. intros ->. rewrite String.eqb_refl in ID. discriminate. }
+      apply String.eqb_neq in Nn. rewrite Nn.
+      destruct (IH found NC' H) as [P|[F N]]; [left; exact P|right].
+      split; [exact F|]. intros it' [<-|H']; [apply String.eqb_neq; exact Nn|apply N, H'].
+Qed.
+
+Lemma hidden_try_push_fix : forall e op v,
+  mem v (hidden_names (try_push_fix e op)) = mem v (hidden_names op).
+Proof.
+  intros e op v; induction op; cbn [try_push_fix hidden_names]; try reflexivity.
+  - destruct (uses_any _ _); cbn [hidden_names]; [reflexivity|]. rewrite !mem_app, IHop. reflexivity.
+  - destruct (all_passed _ _); cbn [hidden_names]; [|reflexivity]. rewrite !mem_app, IHop. reflexivity.
+  - destruct (all_passed _ _); cbn [hidden_names]; [|reflexivity]. rewrite !mem_app, IHop. reflexivity.
+  - destruct (_ && _); cbn [hidden_names]; [rewrite !mem_app, IHop1; reflexivity|].
+    destruct (_ && _); cbn [hidden_names]; [rewrite !mem_app, IHop2; reflexivity|reflexivity].
+Qed.
+
+Lemma hidden_pfd_fix : forall p v, mem v (hidden_names (pfd_fix p)) = mem v (hidden_names p).
+Proof.
+  induction p; intros v; cbn [pfd_fix hidden_names]; try reflexivity;
+    rewrite ?mem_app, ?IHp, ?IHp1, ?IHp2; try reflexivity.
+  rewrite hidden_try_push_fix. apply IHp.
+Qed.
+
+(** the patched collector over-approximates the columns, up to the invented names *)
+Lemma schema_sub_out_vars : forall p v,
+  wscoped p = true -> mem v (schema p) = true -> mem v (hidden_names p) = false ->
+  mem v (out_vars_fix p) = true.
+Proof.
+  induction p as
+    [|x l|x l inp IH|f t ev d ty h inp IH|e0 inp IH|items inp IH|items dd inp IH|k cs pl IHl pr IHr
+     |pl IHl pr IHr|gs ags inp IH|ks inp IH|n inp IH|n inp IH|inp IH|a IHa b IHb];
+    intros v W S Hd; cbn [wscoped schema hidden_names out_vars_fix] in *; try (apply IH; assumption).
+  - discriminate.
+  - exact S.
+  - rewrite mem_app in S. cbn [mem] in *. apply orb_true_iff in S as [S|S].
+    + rewrite (IH v W S Hd). apply orb_true_r.
+    + rewrite orb_false_r in S. rewrite S. reflexivity.
+  - (* Expand *)
+    rewrite mem_app in S, Hd. apply orb_false_iff in Hd as [Hh Hi]. rewrite mem_app.
+    apply orb_true_iff in S as [S|S]; [rewrite (IH v W S Hi); apply orb_true_r|].
+    destruct (mem v (xintro t ev h)) eqn:X; [reflexivity|].
+    rewrite (mem_xnames v t ev h X Hh) in S. discriminate.
+  - (* Filter *)
+    apply andb_true_iff in W as [_ W]. apply IH; assumption.
+  - (* Project *)
+    apply andb_true_iff in W as [Wi W]. rewrite mem_app in Hd. apply orb_false_iff in Hd as [Hc Hi].
+    rewrite mem_app. apply mem_map_In in S as (it & Hit & Nm).
+    destruct it as [e al]. unfold item_name in Nm. cbn [snd fst] in Nm.
+    destruct al as [a|].
+    + subst a. assert (mem v (aliases items) = true) as ->; [|reflexivity].
+      apply mem_In. unfold aliases. apply in_flat_map. exists (e, Some v). split; [exact Hit|left; reflexivity].
+    + assert ((exists x, e = EVar x) \/ computed_item (e, None) = true) as [[x ->]|C0]
+        by (destruct e; [right|left; eauto|right|right|right|right]; reflexivity).
+      * cbn [expr_name] in Nm. subst x.
+        rewrite forallb_forall in Wi. specialize (Wi _ Hit). cbn [fst expr_vars] in Wi.
+        rewrite (IH v W (subsetb_mem _ _ Wi v (or_introl eq_refl)) Hi). apply orb_true_r.
+      * exfalso. assert (mem v (map item_name (filter computed_item items)) = true) as C.
+        { apply mem_map_In. exists (e, None). split; [apply filter_In; split; assumption|exact Nm]. }
+        rewrite C in Hc. discriminate.
+  - (* Return *)
+    apply andb_true_iff in W as [Wi W]. rewrite mem_app in Hd. apply orb_false_iff in Hd as [Hc Hi].
+    apply mem_map_In in S as (it & Hit & Nm).
+    destruct (plain_item it) eqn:PI.
+    + destruct it as [[ | x | | | | ] [a|]]; try discriminate PI.
+      unfold item_name in Nm. cbn [snd fst expr_name] in Nm. subst x.
+      rewrite forallb_forall in Wi. specialize (Wi _ Hit). cbn [fst expr_vars] in Wi.
+      apply IH; [exact W| |exact Hi]. apply (subsetb_mem _ _ Wi v (or_introl eq_refl)).
+    + exfalso. assert (mem v (odd_items items) = true) as C.
+      { unfold odd_items. apply mem_map_In. exists it. split; [|exact Nm].
+        apply filter_In. split; [exact Hit|rewrite PI; reflexivity]. }
+      rewrite C in Hc. discriminate.
+  - (* Join *)
+    apply andb_true_iff in W as [Wl Wr]. rewrite mem_app in S, Hd. apply orb_false_iff in Hd as [Hl Hr].
+    rewrite mem_app. apply orb_true_iff in S as [S|S];
+      [rewrite (IHl v Wl S Hl); reflexivity|rewrite (IHr v Wr S Hr); apply orb_true_r].
+  - (* LeftJoin *)
+    apply andb_true_iff in W as [Wl Wr]. rewrite mem_app in S, Hd. apply orb_false_iff in Hd as [Hl Hr].
+    rewrite mem_app. apply orb_true_iff in S as [S|S];
+      [rewrite (IHl v Wl S Hl); reflexivity|rewrite (IHr v Wr S Hr); apply orb_true_r].
+  - (* Aggregate *)
+    rewrite !mem_app in Hd. apply orb_false_iff in Hd as [Hg Hd]. apply orb_false_iff in Hd as [Ha _].
+    rewrite mem_app in S. rewrite mem_app. apply orb_true_iff in S as [S|S].
+    + apply mem_map_In in S as (g & Hg' & Nm).
+      assert ((exists x, g = EVar x) \/ (match g with EVar _ => false | _ => true end) = true) as [[x ->]|C0]
+        by (destruct g; [right|left; eauto|right|right|right|right]; reflexivity).
+      * cbn [expr_name] in Nm. subst x.
+        assert (mem v (flat_map expr_vars gs) = true) as ->; [|reflexivity].
+        apply mem_In, in_flat_map. exists (EVar v). split; [exact Hg'|left; reflexivity].
+      * exfalso.
+        assert (mem v (map expr_name (filter (fun g => match g with EVar _ => false | _ => true end) gs)) = true) as C.
+        { apply mem_map_In. exists g. split; [apply filter_In; split; assumption|exact Nm]. }
+        rewrite C in Hg. discriminate.
+    + apply mem_map_In in S as (a & Ha' & Nm). destruct a as [fn [al|]].
+      * unfold agg_name in Nm. cbn [snd] in Nm. subst al.
+        assert (mem v (agg_aliases ags) = true) as ->; [|apply orb_true_r].
+        apply mem_In. unfold agg_aliases. apply in_flat_map. exists (fn, Some v). split; [exact Ha'|left; reflexivity].
+      * exfalso.
+        assert (mem v (map agg_name (filter (fun a => match snd a with None => true | Some _ => false end) ags)) = true) as C.
+        { apply mem_map_In. exists (fn, None). split; [apply filter_In; split; [exact Ha'|reflexivity]|exact Nm]. }
+        rewrite C in Ha. discriminate.
+  - (* Union *)
+    apply andb_true_iff in W as [Wl Wr]. rewrite mem_app in Hd. apply orb_false_iff in Hd as [Hl Hr].
+    rewrite mem_app, (IHa v Wl S Hl). reflexivity.
+Qed.
+
+(** one push: justified, and the result is again well scoped *)
+Lemma try_push_fix_scoped : forall H e op,
+  wscoped op = true ->
+  (forall v, mem v (hidden_names op) = true -> mem v H = true) ->
+  subsetb (expr_vars e) (schema op) = true -> disjointb (expr_vars e) H = true ->
+  try_push_fix_ok e op = true /\ wscoped (try_push_fix e op) = true.
+Proof.
+  intros H e op; induction op as
+    [|x l|x l inp IH|f t ev d ty h inp IH|e0 inp IH|items inp IH|items dd inp IH|k cs pl IHl pr IHr
+     |pl IHl pr IHr|gs ags inp IH|ks inp IH|n inp IH|n inp IH|inp IH|a IHa b IHb];
+    intros W HH S D; cbn [try_push_fix try_push_fix_ok];
+    try (split; [reflexivity|]; cbn [wscoped]; rewrite S; exact W).
+  - (* Expand *)
+    cbn [wscoped hidden_names schema] in *.
+    destruct (uses_any (expr_vars e) (xintro t ev h)) eqn:UA;
+      [split; [reflexivity|]; cbn [wscoped schema]; rewrite S; exact W|].
+    assert (disjointb (expr_vars e) (xhidden h) = true) as DH.
+    { apply disjointb_intro. intros v Hv. destruct (mem v (xhidden h)) eqn:M; [|reflexivity].
+      pose proof (HH v) as HV. rewrite mem_app, M, (disjointb_true _ _ D v Hv) in HV.
+      discriminate (HV eq_refl). }
+    assert (subsetb (expr_vars e) (schema inp) = true) as S'.
+    { apply subsetb_intro. intros v Hv. pose proof (subsetb_mem _ _ S v Hv) as M. rewrite mem_app in M.
+      apply orb_true_iff in M as [M|M]; [exact M|].
+      rewrite (mem_xnames v t ev h (uses_any_false _ _ UA v Hv) (disjointb_true _ _ DH v Hv)) in M. discriminate. }
+    destruct (IH W (fun v Hv => HH v ltac:(rewrite mem_app, Hv; apply orb_true_r)) S' D) as [OK W'].
+    rewrite DH, OK. split; [reflexivity|]. cbn [wscoped]. exact W'.
+  - (* Project *)
+    cbn [wscoped hidden_names schema] in *. apply andb_true_iff in W as [Wi W].
+    destruct (all_passed (expr_vars e) items) eqn:AP;
+      [|split; [reflexivity|]; cbn [wscoped schema]; rewrite S, Wi; exact W].
+    assert (forall v, In v (expr_vars e) -> passes_through v items = true /\ mem v (schema inp) = true) as PT.
+    { intros v Hv. unfold all_passed in AP. rewrite forallb_forall in AP. specialize (AP v Hv).
+      assert (passes_through v items = true) as P.
+      { destruct (passed_passes v items false) as [P|[F _]]; [|exact AP|exact P|discriminate F].
+        intros it Hit C E. assert (mem v H = true) as MH.
+        { apply HH. rewrite mem_app. apply orb_true_iff. left. apply mem_map_In. exists it.
+          split; [apply filter_In; split; assumption|exact E]. }
+        rewrite (disjointb_true _ _ D v Hv) in MH. discriminate. }
+      split; [exact P|]. destruct (passes_through_var v items P) as (it & Hit & Ev).
+      rewrite forallb_forall in Wi. specialize (Wi it Hit). rewrite Ev in Wi. cbn [expr_vars] in Wi.
+      apply (subsetb_mem _ _ Wi v (or_introl eq_refl)). }
+    assert (through_ok (expr_vars e) items inp = true) as TO.
+    { unfold through_ok. apply forallb_forall. intros v Hv. destruct (PT v Hv) as [-> ->]. reflexivity. }
+    assert (subsetb (expr_vars e) (schema inp) = true) as S' by (apply subsetb_intro; intros v Hv; apply PT, Hv).
+    destruct (IH W (fun v Hv => HH v ltac:(rewrite mem_app, Hv; apply orb_true_r)) S' D) as [OK W'].
+    rewrite TO, OK. split; [reflexivity|]. cbn [wscoped]. rewrite schema_try_push_fix, Wi. exact W'.
+  - (* Return *)
+    cbn [wscoped hidden_names schema] in *. apply andb_true_iff in W as [Wi W].
+    destruct (all_passed (expr_vars e) items) eqn:AP;
+      [|split; [reflexivity|]; cbn [wscoped schema]; rewrite S, Wi; exact W].
+    assert (forall v, In v (expr_vars e) -> passes_through v items = true /\ mem v (schema inp) = true) as PT.
+    { intros v Hv. unfold all_passed in AP. rewrite forallb_forall in AP. specialize (AP v Hv).
+      assert (passes_through v items = true) as P.
+      { destruct (passed_passes v items false) as [P|[F _]]; [|exact AP|exact P|discriminate F].
+        intros it Hit C E. assert (mem v H = true) as MH.
+        { apply HH. rewrite mem_app. apply orb_true_iff. left. unfold odd_items. apply mem_map_In. exists it.
+          split; [apply filter_In; split; [exact Hit|]|exact E].
+          destruct it as [[ | x | | | | ] [a|]]; cbn in C |- *; congruence. }
+        rewrite (disjointb_true _ _ D v Hv) in MH. discriminate. }
+      split; [exact P|]. destruct (passes_through_var v items P) as (it & Hit & Ev).
+      rewrite forallb_forall in Wi. specialize (Wi it Hit). rewrite Ev in Wi. cbn [expr_vars] in Wi.
+      apply (subsetb_mem _ _ Wi v (or_introl eq_refl)). }
+    assert (through_ok (expr_vars e) items inp = true) as TO.
+    { unfold through_ok. apply forallb_forall. intros v Hv. destruct (PT v Hv) as [-> ->]. reflexivity. }
+    assert (subsetb (expr_vars e) (schema inp) = true) as S' by (apply subsetb_intro; intros v Hv; apply PT, Hv).
+    destruct (IH W (fun v Hv => HH v ltac:(rewrite mem_app, Hv; apply orb_true_r)) S' D) as [OK W'].
+    rewrite TO, OK. split; [reflexivity|]. cbn [wscoped]. rewrite schema_try_push_fix, Wi. exact W'.
+  - (* Join *)
+    cbn [wscoped hidden_names schema] in *. apply andb_true_iff in W as [Wl Wr].
+    assert (forall v, mem v (hidden_names pl) = true -> mem v H = true) as HHl
+      by (intros v Hv; apply HH; rewrite mem_app, Hv; reflexivity).
+    assert (forall v, mem v (hidden_names pr) = true -> mem v H = true) as HHr
+      by (intros v Hv; apply HH; rewrite mem_app, Hv; apply orb_true_r).
+    assert (forall q, wscoped q = true -> (forall v, mem v (hidden_names q) = true -> mem v H = true) ->
+            uses_any (expr_vars e) (out_vars_fix q) = false -> disjointb (expr_vars e) (schema q) = true) as NotIn.
+    { intros q Wq HHq U. apply disjointb_intro. intros v Hv.
+      destruct (mem v (schema q)) eqn:M; [|reflexivity].
+      assert (mem v (hidden_names q) = false) as Hq.
+      { destruct (mem v (hidden_names q)) eqn:M2; [|reflexivity].
+        pose proof (HHq v M2) as HV. rewrite (disjointb_true _ _ D v Hv) in HV. discriminate HV. }
+      pose proof (schema_sub_out_vars q v Wq M Hq) as X. rewrite (uses_any_false _ _ U v Hv) in X. discriminate. }
+    destruct (uses_any (expr_vars e) (out_vars_fix pl)) eqn:UL, (uses_any (expr_vars e) (out_vars_fix pr)) eqn:UR;
+      cbn [andb negb];
+      try (split; [reflexivity|]; cbn [wscoped schema]; rewrite S, Wl, Wr; reflexivity).
+    + (* left only *)
+      pose proof (NotIn pr Wr HHr UR) as Dr.
+      assert (subsetb (expr_vars e) (schema pl) = true) as S'.
+      { apply subsetb_intro. intros v Hv. pose proof (subsetb_mem _ _ S v Hv) as M. rewrite mem_app in M.
+        rewrite (disjointb_true _ _ Dr v Hv), orb_false_r in M. exact M. }
+      destruct (IHl Wl HHl S' D) as [OK W']. rewrite Dr, OK. split; [reflexivity|].
+      cbn [wscoped]. rewrite W', Wr. reflexivity.
+    + (* right only *)
+      destruct (match k with JLeft => false | _ => true end) eqn:RP;
+        [|split; [reflexivity|]; cbn [wscoped schema]; rewrite S, Wl, Wr; reflexivity].
+      pose proof (NotIn pl Wl HHl UL) as Dl.
+      assert (subsetb (expr_vars e) (schema pr) = true) as S'.
+      { apply subsetb_intro. intros v Hv. pose proof (subsetb_mem _ _ S v Hv) as M. rewrite mem_app in M.
+        rewrite (disjointb_true _ _ Dl v Hv) in M. exact M. }
+      destruct (IHr Wr HHr S' D) as [OK W']. rewrite Dl, OK. split; [reflexivity|].
+      cbn [wscoped]. rewrite Wl, W'. reflexivity.
+Qed.
+
+Lemma disjointb_app_l : forall a b c, disjointb (a ++ b) c = true -> disjointb a c = true /\ disjointb b c = true.
+Proof.
+  intros a b c H. split; apply disjointb_intro; intros x Hx; apply (disjointb_true _ _ H); apply in_or_app; tauto.
+Qed.
+
+Theorem pfd_fix_scoped_gen : forall H p,
+  wscoped p = true -> (forall v, mem v (hidden_names p) = true -> mem v H = true) ->
+  disjointb (filter_vars p) H = true ->
+  pfd_fix_ok p = true /\ wscoped (pfd_fix p) = true.
+Proof.
+  intros H p; induction p as
+    [|x l|x l inp IH|f t ev d ty h inp IH|e0 inp IH|items inp IH|items dd inp IH|k cs pl IHl pr IHr
+     |pl IHl pr IHr|gs ags inp IH|ks inp IH|n inp IH|n inp IH|inp IH|a IHa b IHb];
+    intros W HH D; cbn [pfd_fix pfd_fix_ok wscoped hidden_names filter_vars] in *;
+    try (split; [reflexivity|exact W]);
+    try (apply IH; [exact W|intros v Hv; apply HH; rewrite ?mem_app, Hv, ?orb_true_r; reflexivity|exact D]).
+  - (* Filter *)
+    apply andb_true_iff in W as [S W]. apply disjointb_app_l in D as [De Di].
+    destruct (IH W HH Di) as [OK W'].
+    destruct (try_push_fix_scoped H e0 (pfd_fix inp) W') as [OK2 W2].
+    + intros v Hv. rewrite hidden_pfd_fix in Hv. apply HH, Hv.
+    + rewrite schema_pfd_fix. exact S.
+    + exact De.
+    + rewrite OK, OK2. split; [reflexivity|exact W2].
+  - (* Project *)
+    apply andb_true_iff in W as [Wi W].
+    destruct (IH W (fun v Hv => HH v ltac:(rewrite mem_app, Hv; apply orb_true_r)) D) as [OK W'].
+    split; [exact OK|]. rewrite schema_pfd_fix, Wi. exact W'.
+  - (* Return *)
+    apply andb_true_iff in W as [Wi W].
+    destruct (IH W (fun v Hv => HH v ltac:(rewrite mem_app, Hv; apply orb_true_r)) D) as [OK W'].
+    split; [exact OK|]. rewrite schema_pfd_fix, Wi. exact W'.
+  - (* Join *)
+    apply andb_true_iff in W as [Wl Wr]. apply disjointb_app_l in D as [Dl Dr].
+    destruct (IHl Wl (fun v Hv => HH v ltac:(rewrite mem_app, Hv; reflexivity)) Dl) as [OKl Wl'].
+    destruct (IHr Wr (fun v Hv => HH v ltac:(rewrite mem_app, Hv; apply orb_true_r)) Dr) as [OKr Wr'].
+    rewrite OKl, OKr, Wl', Wr'. split; reflexivity.
+Qed.
+
+Theorem pfd_fix_scoped : forall G p,
+  uniform p = true -> wscoped p = true -> names_ok p = true -> sem G (pfd_fix p) = sem G p.
+Proof.
+  intros G p U W N. apply pfd_fix_sound; [exact U|].
+  apply (pfd_fix_scoped_gen (hidden_names p) p W); [auto|exact N].
 Qed.
 
 (** ** projection push-down rebuilds the tree it is given *)
